@@ -2,9 +2,9 @@
    pack_ok, expected result of unpack), the proofs are in Proofs.PackBits / PackRoundtrip / PackRoundtripGraph /
    PackRoundtripMol / PackLayout / PackElements / PackProofs / PackRxn / PackRxnLen / PackV0 / F16Proofs. *)
 From Coq Require Import ZArith List Bool.
-From Model Require Import PyBase Pack PackSpec PackSpecV0 PackApi F16.
+From Model Require Import PyBase Pack PackSpec PackSpecV0 PackApi PackRxnApi PackStereo F16.
 From Gen Require Import Elements.
-From Proofs Require Import PackBits PackRoundtrip PackRoundtripGraph PackRoundtripMol PackLayout PackElements PackApiProofs PackProofs PackRxn PackRxnLen PackV0 F16Proofs.
+From Proofs Require Import PackBits PackRoundtrip PackRoundtripGraph PackRoundtripMol PackLayout PackElements PackApiProofs PackProofs PackRxn PackRxnLen PackV0 PackV0Unpack PackStereoProofs PackApiExt F16Proofs.
 Import ListNotations.
 Open Scope Z_scope.
 
@@ -89,6 +89,24 @@ Theorem C10_read_orders_v0_layout : forall groups, Forall v0_group_ok groups ->
   read_orders_v0 (flat_map v0_group_bytes groups) = Some (flat_map v0_group_orders groups).
 Proof. exact read_orders_v0_layout. Qed.
 Print Assumptions C10_read_orders_v0_layout.
+
+(* VERSION 0, whole pack: for EVERY molecule within the format limits, unpack of the bytes of the declarative version 0
+   layout (PackSpecV0.layout_v0: version byte 0, order block of 5 orders per 2 bytes, everything else as version 2)
+   followed by ANY suffix returns the same atoms, neighbour tables with orders, cis/trans records and the pack length *)
+Theorem C10_unpack_layout_v0 : forall (m : pmol) (suf : list Z), pack_ok m = true ->
+  unpack (bytes_of_bits (layout_v0 m) ++ suf) = Ok (unpacked_of m (Z.of_nat (length (bytes_of_bits (layout_v0 m))))).
+Proof. exact unpack_layout_v0. Qed.
+Print Assumptions C10_unpack_layout_v0.
+
+(* non-vacuity, evaluated on the molecule at the format limits (19 bonds: four groups, the last one padded) *)
+Theorem C10_unpack_v0_example :
+  pack_ok pack_example = true /\ hd 1 (bytes_of_bits (layout_v0 pack_example)) = 0 /\
+  length (v0_order_bytes (fwd_orders (mol_fwd [] (pm_atoms pack_example)))) = 8%nat /\
+  pyres_eqb (fun u v => (up_size u =? up_size v) && list_eqb (fun x y => (fst x =? fst y)) (up_adj u) (up_adj v))
+            (unpack (bytes_of_bits (layout_v0 pack_example)))
+            (Ok (unpacked_of pack_example (Z.of_nat (length (bytes_of_bits (layout_v0 pack_example)))))) = true.
+Proof. exact unpack_v0_example. Qed.
+Print Assumptions C10_unpack_v0_example.
 
 (* the size pack computes before allocating is the number of bytes it writes (no byte of the buffer is left unwritten
    or written twice) *)
@@ -196,3 +214,104 @@ Theorem C10_rxn_example : exists p bytes,
                          [unpacked_of pack_example (pack_size pack_example); unpacked_of pack_example (pack_size pack_example)]).
 Proof. exact rxn_example. Qed.
 Print Assumptions C10_rxn_example.
+
+(* PYTHON SIDE of MoleculeContainer.pack / unpack around the codecs (Model.PackStereo: the atom-keyed dicts
+   _stereo_cis_trans_terminals / _stereo_cis_trans_centers built from the stereogenic cumulene paths with later paths
+   overwriting, _cis_trans_count, and the re-attachment of the decoded records to bonds).  The full statement -- every
+   molecule within the format limits gets its bond stereo labels back -- is FALSE for the current code:
+   _refuted exhibits C/S(C)(=C(/F)Cl)=C(F)Cl (label of 2=4 comes back on 2=7); _partial proves the round trip incl. the
+   labels under the exact extra condition ct_consistent_b (for every labelled bond, first met from atom n, the terminals
+   entry of n leads through the centers dict back to this bond).  The path list is an input: it is a function of the
+   label-free structure (checked on every input by the correspondence) *)
+Theorem C10_api_roundtrip_partial : forall (atoms : list patom) (paths : list (list Z)) (suf : list Z),
+  pack_ok (api_pmol atoms paths) = true -> labels_sym_b atoms = true -> ct_consistent_b atoms paths = true ->
+  exists bytes, api_pack atoms paths = Ok bytes /\
+    api_unpack paths (bytes ++ suf) = Ok (map uatom_of atoms, ladj_of_atoms atoms, Z.of_nat (length bytes)).
+Proof. exact api_roundtrip_partial. Qed.
+Print Assumptions C10_api_roundtrip_partial.
+
+Theorem C10_api_roundtrip_refuted :
+  pack_ok (api_pmol ct_shared_atoms ct_shared_paths) = true /\ labels_sym_b ct_shared_atoms = true /\
+  ct_consistent_b ct_shared_atoms ct_shared_paths = false /\
+  exists bytes adj size,
+    api_pack ct_shared_atoms ct_shared_paths = Ok bytes /\
+    api_unpack ct_shared_paths bytes = Ok (map uatom_of ct_shared_atoms, adj, size) /\
+    adj <> ladj_of_atoms ct_shared_atoms /\
+    zget (ladj_of_atoms ct_shared_atoms) 2 = Some [(1, (1, None)); (3, (1, None)); (4, (2, Some false)); (7, (2, None))] /\
+    zget adj 2 = Some [(1, (1, None)); (3, (1, None)); (4, (2, None)); (7, (2, Some false))].
+Proof. exact api_roundtrip_refuted. Qed.
+Print Assumptions C10_api_roundtrip_refuted.
+
+(* ReactionContainer.pack at API level (Model.PackRxnApi: header bytearray first, then every molecule through
+   MoleculeContainer.pack(check=True) in the order reactants, reagents, products).
+   HEADER: within the limits the pack is 1, the three counts, the molecule packs *)
+Theorem C10_rxn_api_pack_header : forall rs ags ps : list pmol,
+  Forall api_ok rs -> Forall api_ok ags -> Forall api_ok ps ->
+  (length rs <= 255)%nat -> (length ags <= 255)%nat -> (length ps <= 255)%nat ->
+  rxn_api_pack true rs ags ps =
+  Ok ([1; Z.of_nat (length rs); Z.of_nat (length ags); Z.of_nat (length ps)] ++ concat (map pack_layout (rs ++ ags ++ ps))).
+Proof. exact rxn_api_pack_header. Qed.
+Print Assumptions C10_rxn_api_pack_header.
+
+(* API level round trip of reactions for all role sizes 0..255: unpack returns every molecule in its role, pack_len the
+   atom counts *)
+Theorem C10_rxn_api_roundtrip : forall rs ags ps : list pmol,
+  Forall api_ok rs -> Forall api_ok ags -> Forall api_ok ps ->
+  (length rs <= 255)%nat -> (length ags <= 255)%nat -> (length ps <= 255)%nat ->
+  exists bytes, rxn_api_pack true rs ags ps = Ok bytes /\
+    rxn_unpack bytes = Ok (map (fun m => unpacked_of m (pack_size m)) rs, map (fun m => unpacked_of m (pack_size m)) ags,
+                           map (fun m => unpacked_of m (pack_size m)) ps) /\
+    ((1 <= length rs + length ags + length ps)%nat ->
+     rxn_pack_len bytes = Ok (map natoms rs, map natoms ags, map natoms ps)).
+Proof. exact rxn_api_roundtrip. Qed.
+Print Assumptions C10_rxn_api_roundtrip.
+
+(* 255 LIMIT at API level: more than 255 molecules in a role raise ValueError whatever the molecules are, checked or not
+   (the header is built before any molecule is packed) *)
+Theorem C10_rxn_api_pack_limit : forall (check : bool) (rs ags ps : list pmol),
+  (255 < length rs \/ 255 < length ags \/ 255 < length ps)%nat -> rxn_api_pack check rs ags ps = Err ValueError.
+Proof. exact rxn_api_pack_limit. Qed.
+Print Assumptions C10_rxn_api_pack_limit.
+
+(* the first molecule outside the checked limits raises ValueError *)
+Theorem C10_rxn_api_pack_rejects : forall (rs ags ps pre : list pmol) (m : pmol) (post : list pmol),
+  (length rs <= 255)%nat -> (length ags <= 255)%nat -> (length ps <= 255)%nat ->
+  rs ++ ags ++ ps = pre ++ m :: post -> Forall api_ok pre -> mol_pack true m = Err ValueError ->
+  rxn_api_pack true rs ags ps = Err ValueError.
+Proof. exact rxn_api_pack_rejects. Qed.
+Print Assumptions C10_rxn_api_pack_rejects.
+
+(* EXTENT OF THE LIMITS CHECK of MoleculeContainer.pack(check=True): it accepts exactly the non-empty molecules with all
+   atom numbers <= 4095 and at most 15 neighbours per atom *)
+Theorem C10_mol_pack_check_characterised : forall m,
+  mol_pack_check m = Ok tt <->
+  pm_atoms m <> [] /\ (forall a, In a (pm_atoms m) -> pa_n a <= 4095) /\ (forall a, In a (pm_atoms m) -> (length (pa_nbrs a) <= 15)%nat).
+Proof. exact mol_pack_check_characterised. Qed.
+Print Assumptions C10_mol_pack_check_characterised.
+
+(* "what the check accepts is within the format limits" is FALSE (finding): atom numbers -1 and 0, hydrogens 7 and 8,
+   charges 12 and -5, isotope offset 32 are accepted, are outside the limits, and decode to a different atom (for the
+   negative number the model shows the wrapped number 4095; in C the packer also writes seen[65535] out of bounds) *)
+Theorem C10_mol_pack_check_complete_refuted :
+  (mol_pack true unrep_negative = pack unrep_negative /\ pack_ok unrep_negative = false /\
+   option_map (map ua_n) (decoded_atoms unrep_negative) = Some [4095]) /\
+  (mol_pack true unrep_zero = pack unrep_zero /\ pack_ok unrep_zero = false /\
+   option_map (map ua_n) (decoded_atoms unrep_zero) = Some [0]) /\
+  (mol_pack true unrep_h7 = pack unrep_h7 /\ pack_ok unrep_h7 = false /\
+   option_map (map ua_h) (decoded_atoms unrep_h7) = Some [None]) /\
+  (mol_pack true unrep_h8 = pack unrep_h8 /\ pack_ok unrep_h8 = false /\
+   option_map (map ua_h) (decoded_atoms unrep_h8) = Some [Some 0]) /\
+  (mol_pack true unrep_charge12 = pack unrep_charge12 /\ pack_ok unrep_charge12 = false /\
+   option_map (map (fun u => (ua_chg u, ua_h u))) (decoded_atoms unrep_charge12) = Some [(-4, Some 1)]) /\
+  (mol_pack true unrep_charge_m5 = pack unrep_charge_m5 /\ pack_ok unrep_charge_m5 = false /\
+   option_map (map (fun u => (ua_chg u, ua_h u))) (decoded_atoms unrep_charge_m5) = Some [(11, None)]) /\
+  (mol_pack true unrep_isotope = pack unrep_isotope /\ pack_ok unrep_isotope = false /\
+   option_map (map (fun u => (ua_iso u, ua_stereo u))) (decoded_atoms unrep_isotope) = Some [(None, Some true)]).
+Proof. exact mol_pack_check_complete_refuted. Qed.
+Print Assumptions C10_mol_pack_check_complete_refuted.
+
+(* what the check does guarantee (the other limits -- number >= 1, isotope offset, hydrogens, charge -- are missing) *)
+Theorem C10_mol_pack_check_complete_partial : forall m, mol_pack_check m = Ok tt ->
+  forall a, In a (pm_atoms m) -> pa_n a < 4096 /\ (length (pa_nbrs a) <= 15)%nat.
+Proof. exact mol_pack_check_complete_partial. Qed.
+Print Assumptions C10_mol_pack_check_complete_partial.
